@@ -25,6 +25,10 @@ def instances(tier):
 def run(tier, replay=None):
     run = C.Run(PID, tier, "model_checking")
     cases = R.run_instances(run, "c17_" + tier, instances(tier), R.has_roll)
+    # long behaviours (hundreds of records in one history), sampled by TLC's simulation mode
+    deep = 400 if tier == "quick" else 1000
+    R.deep_runs(run, "c17", [R.inst("deep_min1", trig="startup", count=2, limit=1, sizes=(1, 2), pre="PreB", maxrec=deep, restart=12, faults=3, crash=3),
+                        R.inst("deep_min0_t", trig="startup", append=False, count=1, limit=0, sizes=(0, 1), pre="PreB", maxrec=deep, restart=12)], 40 if tier == "quick" else 400)
     # the first records arrive simultaneously from several threads (released by a barrier)
     for mn in (0, 1, 2):
         # the first scenario of each batch is one long lifetime (4 threads x 80 / 600 records)
@@ -40,5 +44,5 @@ def run(tier, replay=None):
                  "over pre-existing files of -/0/1/2/3 units with min_size 0/1/2: the trace (start / end events emitted "
                  "under the appender's mutex, directory parsed at the end of every append) is validated against "
                  "Rolling.tla with TLC; one scenario per batch is a long lifetime of 320 (quick) / 2400 (thorough) records")
-    run.assumptions = ["thread schedules are sampled (barrier + seeded yields), not enumerated"]
+    run.assumptions = ["long behaviours (400 / 1000 records with faults, crashes, restarts, obstacles and encoder failures) are sampled by TLC -simulate (40 / 400 per instance), not enumerated", "thread schedules are sampled (barrier + seeded yields), not enumerated"]
     return run.finish()
